@@ -346,6 +346,7 @@ def register(reg, stubs, world):
                 z3.Not(z3.Or(is_ctx, is_map))]
     reg.add(Contract('policy:Enforcer.enforce', pre=enforce_pre, post=enforce_post, axioms=enforce_axioms,
                      cases=enforce_cases, ncases=5,
+                     tracks=('policy:Enforcer.load_rules', '_checks:_check', 'policy:Enforcer._enforce_scope'),
                      raises=('InvalidContextObject', 'InvalidScope', 'PolicyNotAuthorized', '$CallerException') + EVAL_RAISES,
                      modifies=LOAD_MODS, allocates=True, props=('C03', 'C07', 'C08', 'C14'),
                      doc='loads, normalises credentials, gates on scope, evaluates the governing check once, then '
